@@ -141,7 +141,59 @@ def gen_document(ch: Choices, max_len: int = 5, allow_junk: bool = True, tok_pre
         els.insert(ch.draw(len(els) + 1, 'doc.foreign.pos'), ch.choice(F.NONOBJECT_ALPHABET, 'doc.foreign.value'))
         kinds.append('foreign')
     doc = els[0] if shape == 'single' else els
-    return {'text': json.dumps(doc), 'shape': shape, 'kinds': kinds, 'doc': doc}
+    text = json.dumps(doc)
+    if ch.flag(1, 5, 'doc.respell'):
+        text = respell(ch, doc)
+        doc = json.loads(text)       # with a duplicated member name the last one counts
+        kinds = kinds + ['respelled']
+    return {'text': text, 'shape': shape, 'kinds': kinds, 'doc': doc}
+
+
+def respell(ch: Choices, doc: Any) -> str:
+    """Another legal JSON spelling of the same document: what a peer with another encoder would put on the wire."""
+    how = ch.choice(['raw_unicode', 'indent', 'compact', 'escaped_names', 'escaped_solidus', 'padded', 'dup_before',
+                     'dup_after', 'all_escaped'], 'respell.how')
+    if how == 'raw_unicode':
+        return json.dumps(doc, ensure_ascii=False)
+    if how == 'indent':
+        return json.dumps(doc, indent=2)
+    if how == 'compact':
+        return json.dumps(doc, separators=(',', ':'))
+    return _encode(doc, how, 0)
+
+
+def _uesc(text: str) -> str:
+    return ''.join(f'\\u{ord(c):04x}' if ord(c) < 0x10000 else json.dumps(c)[1:-1] for c in text)
+
+
+def _encode(v: Any, how: str, depth: int) -> str:
+    """A structure-aware JSON encoder with a few spelling options (strings and numbers keep their value)."""
+    if isinstance(v, str):
+        if how == 'all_escaped':
+            return '"' + _uesc(v) + '"'
+        if how == 'escaped_solidus':
+            return json.dumps(v).replace('/', '\\/').replace('.', '\\u002e')
+        return json.dumps(v)
+    if isinstance(v, list):
+        sep = ' ,\r\n ' if how == 'padded' else ', '
+        return '[' + sep.join(_encode(x, how, depth + 1) for x in v) + ']'
+    if isinstance(v, dict):
+        sep = ' ,\r\n ' if how == 'padded' else ', '
+        colon = ' :\t' if how == 'padded' else ': '
+        parts = []
+        for k, x in v.items():
+            key = json.dumps(k)
+            if how in ('escaped_names', 'all_escaped'):
+                key = '"' + _uesc(k[:2]) + json.dumps(k[2:])[1:-1] + '"'
+            # a member name occurring twice in one object is legal JSON; decoders keep the last occurrence
+            if how == 'dup_before' and k == 'method' and depth <= 1:
+                parts.append('"method"' + colon + '"nosuch"')
+            if how == 'dup_after' and k == 'jsonrpc' and depth <= 1:
+                parts.append('"jsonrpc"' + colon + '"1.0"')
+            parts.append(key + colon + _encode(x, how, depth + 1))
+        return '{' + sep.join(parts) + '}'
+    text = json.dumps(v)
+    return ('\n\t ' + text + ' \n') if (how == 'padded' and depth == 0) else text
 
 
 def corrupt_text(ch: Choices, text: str) -> Tuple[str, str]:
